@@ -656,3 +656,44 @@ V("C05-minus-zero-kept","C05","internal/signed256/signed256.go","""	if z.mag.IsZ
 	return nil
 }""","""	return nil
 }""",rule="C05.R3")
+
+# ---- C11
+FT="pkg/local_object_storage/blobstor/fstree/"
+V("C11-suffix-no-min","C11","pkg/local_object_storage/blobstor/common/storage.go","		ln = min(r.First, payloadLen)","		ln = r.First",rule="C11.R1")
+V("C11-bounds-no-order-check","C11","pkg/local_object_storage/blobstor/common/storage.go","		if r.First > r.Second || r.First >= payloadLen {","		if r.First >= payloadLen {",rule="C11.R1")
+V("C11-final-test-weakened","C11","pkg/local_object_storage/blobstor/common/storage.go","	if ln != 0 && (off >= payloadLen || payloadLen-off < ln) {","	if ln != 0 && payloadLen-off < ln {",rule="C11.R1")
+V("C11-no-toobig-check","C11",FT+"fstree.go","""	if err := checkTooBigRange(off, ln); err != nil {
+		return nil, err
+	}
+
+	if off >= uint64(len(prefix)) {""","""	if off >= uint64(len(prefix)) {""",rule="C11.R2")
+V("C11-tail-limit-from-full-prefix","C11",FT+"fstree.go","""	prefix = prefix[off:]
+	if ln <= uint64(len(prefix)) {
+		stream.Close()
+		return nopCloser(bytes.NewReader(prefix[:ln])), nil
+	}
+
+	return newPrefixedReadSeekCloser(prefix, &limitedFileReader{ReadSeekCloser: stream, limit: int64(ln) - int64(len(prefix))}), nil""","""	full := len(prefix)
+	prefix = prefix[off:]
+	if ln <= uint64(len(prefix)) {
+		stream.Close()
+		return nopCloser(bytes.NewReader(prefix[:ln])), nil
+	}
+
+	return newPrefixedReadSeekCloser(prefix, &limitedFileReader{ReadSeekCloser: stream, limit: int64(ln) - int64(full)}), nil""",rule="C11.R1")
+V("C11-limited-seek-no-check","C11",FT+"util.go","""	if offset > l.limit {
+		return 0, io.EOF
+	}
+	_, err := l.ReadSeekCloser.Seek(offset, whence)""","""	_, err := l.ReadSeekCloser.Seek(offset, whence)""",rule="C11.R1")
+V("C11-prefixed-read-eof-early","C11",FT+"util.go","""		if n == len(b) {
+			// nothing to ask the rest for; its EOF must not end a stream that still has prefix bytes
+			return n, nil
+		}
+""","",rule="C11.R5")
+V("C11-prefixed-seek-zero","C11",FT+"util.go","""	if offset == skipBytes {
+		return 0, nil
+	}
+
+""","",rule="C11.R5")
+V("C11-new-mode-unhandled","C11","pkg/local_object_storage/blobstor/common/storage.go","	PayloadRangeModeSuffix\n","	PayloadRangeModeSuffix\n\tPayloadRangeModeAround\n",rule="C11.R3")
+V("C11-silent-reordered-test","C11","pkg/local_object_storage/blobstor/common/storage.go","		if r.First > r.Second || r.First >= payloadLen {","		if payloadLen <= r.First || r.Second < r.First {",expect="silent")
